@@ -1,3 +1,15 @@
 import Pyrealb.Props.C06
 open Pyrealb.C06
-#print axioms stub_holds
+#print axioms tables_match_property_holds
+#print axioms elision_total_holds
+#print axioms elision_pass_settles_refuted
+#print axioms elision_pass_settles_partial
+#print axioms text_settled_refuted
+#print axioms text_settled_partial
+#print axioms elision_idempotent_refuted
+#print axioms settled_fixpoint
+#print axioms elision_idempotent_partial
+#print axioms an_iff_rule_refuted
+#print axioms an_iff_rule_partial
+#print axioms tree_settled_refuted
+#print axioms tree_settled_partial
